@@ -273,13 +273,16 @@ func ruleC01Secondary(w *World, r *Report) {
 					okJ = alloc != nil && errGuardedStrict(f, alloc, st)
 				} else {
 					// carried over from a PDR that already has the mark: the store runs only under that PDR's allocIPFlag
+					isMark := func(v ssa.Value, truth bool) bool {
+						return truth && (strings.HasSuffix(symOf(v).String(), ".allocIPFlag") || loadsField(v, "allocIPFlag"))
+					}
 					okJ = onlyVia(g, st, func(a, b *ssa.BasicBlock) bool {
 						v, truth, ok := boolEdge(a, b)
-						if !ok || !truth {
-							return false
-						}
-						return strings.HasSuffix(symOf(v).String(), ".allocIPFlag") || loadsField(v, "allocIPFlag")
+						return ok && isMark(v, truth)
 					})
+					// ... or the value stored is itself such a mark or a combination that can be true only
+					// when one of them is (`own || stored`)
+					okJ = okJ || boolImplies(st.Val, true, isMark)
 				}
 				r.check(okJ, "R01.J5", w.FuncName(g), "allocIPFlag set only after a successful pool allocation", w.Pos(st.Pos()), "dominated by LookupOrAllocIP err == nil (or carried over from a marked PDR)", "allocIPFlag can be set without a pool allocation: the session's release path then calls DeallocIP on a nil pool")
 			}
